@@ -552,6 +552,22 @@ func c11check(c *mon.Ctx, k *mon.Case, gs []*c11glyph, forms glyfref.Forms, tota
 				k.Fail("mismatch", "points:differ", "glyph %d: points from SimpleGlyph.Decode differ from the generated glyph\n lib: %+v\n ref: %+v", i, info, src.simple)
 				return
 			}
+			// the contours are the caller's: closing or extending one of them
+			// (append) must not reach into another one
+			if len(info.Contours) > 1 {
+				for ci := range info.Contours {
+					cc := info.Contours[ci]
+					if len(cc) > 0 {
+						_ = append(cc, cc[0])
+					}
+					_ = append(info.Instructions, 0xEE)
+				}
+				if !c11samePoints(info, src.simple) {
+					k.Fail("mismatch", "points:contours-share-storage", "glyph %d: appending a point to one contour returned by SimpleGlyph.Decode changes another contour (the contours share one array with spare capacity)", i)
+					return
+				}
+				k.Class("simple-decoded:contours-independent")
+			}
 			k.Class("simple-decoded")
 			if i < 2 && k.Index < 2 {
 				k.Sample(fmt.Sprintf("simple glyph: %d contours, body %x…", src.nc, src.body[:min(len(src.body), 24)]))
